@@ -93,6 +93,10 @@ def run_property(prop, cases, classify=None, technique="", functions=None, bound
     build_s = E.build_driver()
     results, wall = E.run_cases(cases, jobs=jobs, timeout_s=timeout_s, progress=500, solver_kind=solver_kind)
     by_status = collections.Counter(r["status"] for r in results)
+    os.makedirs(os.path.join(VERIF, "work"), exist_ok=True)
+    with open(os.path.join(VERIF, "work", "%s.results.jsonl" % prop), "w") as f:  # debugging aid, not evidence
+        for r in results:
+            f.write(json.dumps({k: (sorted(v) if isinstance(v, (set, frozenset)) else v) for k, v in r.items() if k != "replay_record"}, default=str) + "\n")
     known = load_known(prop)
     violations, known_hits, broken, rejected = [], [], [], []
     for r in results:
